@@ -492,6 +492,24 @@ def coq_cases(progs, tag):
     return res
 
 
+def run_robust(binary, lines, **kw):
+    """run_harness, but a case that came back as crashed/timed out is re-run alone (twice at most): on a loaded
+    machine a whole shard can exceed its wall-clock allowance, which must not be mistaken for a crash of the VM"""
+    recs = yvlib.run_harness(binary, lines, **kw)
+    bad = [i for i, r in enumerate(recs) if r.crashed]
+    for attempt in range(2):
+        if not bad:
+            break
+        kw2 = dict(kw)
+        kw2["shards"] = 1
+        kw2["case_timeout_ms"] = 60000
+        again = [yvlib.run_harness(binary, [lines[i]], **kw2)[0] for i in bad[:40]]
+        for i, r in zip(bad[:40], again):
+            recs[i] = r
+        bad = [i for i in bad[:40] if recs[i].crashed]
+    return recs
+
+
 def impl_result(rec):
     """harness record -> the Spec's result format"""
     if rec.crashed:
@@ -715,7 +733,7 @@ def run(ctx):
         idx.append(i)
         lines.append("run - " + hx(c["src"]))
     t0 = time.time()
-    recs = yvlib.run_harness(dbg, lines, case_timeout_ms=5000)
+    recs = run_robust(dbg, lines, case_timeout_ms=5000)
     log("[C09] %d programs run in %.1fs" % (len(lines), time.time() - t0))
     impl = {}
     for i, r in zip(idx, recs):
@@ -794,10 +812,10 @@ def run(ctx):
     tsel += rest[:(250 if quick else 2500)]
     tl = ["trace - 200000 " + hx(cq[i]["src"]) for i in tsel]
     t0 = time.time()
-    trd = yvlib.run_harness(dbg, tl, case_timeout_ms=8000)
+    trd = run_robust(dbg, tl, case_timeout_ms=8000)
     log("[C09] %d dev traces in %.1fs" % (len(tl), time.time() - t0))
     t0 = time.time()
-    trr = yvlib.run_harness(rel, tl, case_timeout_ms=8000)
+    trr = run_robust(rel, tl, case_timeout_ms=8000)
     log("[C09] %d release traces in %.1fs" % (len(tl), time.time() - t0))
     n_tr = 0
     n_sw = 0
@@ -833,7 +851,7 @@ def run(ctx):
 
     # --- the finally family
     fin = finally_family() if not ctx.replay_only else []
-    fr = yvlib.run_harness(dbg, ["run - " + hx(s) for s, _, _ in fin], case_timeout_ms=5000)
+    fr = run_robust(dbg, ["run - " + hx(s) for s, _, _ in fin], case_timeout_ms=5000)
     fin_known = 0
     for (src, exp, known), r in zip(fin, fr):
         got = impl_result(r)
